@@ -6,6 +6,7 @@ pub mod c01;
 pub mod c03;
 pub mod c05;
 pub mod c06;
+pub mod c07;
 pub mod c08;
 pub mod c08_fn;
 pub mod c16;
@@ -28,6 +29,7 @@ pub fn run(id: &str, ctx: &Ctx) -> i32 {
         "C19" => finish(ctx, c19::run(ctx), Some(&c19::replay)),
         "C12" => finish(ctx, c12::run(ctx), Some(&c12::replay)),
         "C13" => finish(ctx, c13::run(ctx), Some(&c13::replay)),
+        "C07" => finish(ctx, c07::run(ctx), Some(&c07::replay)),
         "C09" => finish(ctx, c09::run(ctx), Some(&c09::replay)),
         _ => {
             eprintln!("unknown or unbuilt check {id}");
@@ -47,6 +49,7 @@ pub fn replay(id: &str, case: &Value) -> Result<(), String> {
         "C19" => c19::replay(case),
         "C12" => c12::replay(case),
         "C13" => c13::replay(case),
+        "C07" => c07::replay(case),
         "C09" => c09::replay(case),
         _ => Err(format!("no replay for {id}")),
     }
